@@ -50,6 +50,8 @@ type c14File struct {
 	Src  string `json:"src"`
 	Role string `json:"role"`           // how the generator built it; a label, not used by the oracle
 	Mode uint32 `json:"mode,omitempty"` // permission bits when not 0644 (C06, C12)
+	// LinkOf: the file is a second name (hard link) of this other file of the case (C12).
+	LinkOf string `json:"link_of,omitempty"`
 }
 
 type c14Case struct {
@@ -134,6 +136,12 @@ var c14Specials = []c14Special{
 			"c14wrap(func(k int) error {\n\treturn c14done(k)\n})",
 			"c14wrap(func(k int) error {\n\treturn c14done(k + 1)\n})",
 		},
+	},
+	{
+		// Not idempotent: applying the change twice shows in the bytes.
+		Label:  "bump",
+		Text:   "@@\nvar x expression\n@@\n-c14bump(x)\n+c14bump(x + 1)\n",
+		Plants: []string{"c14bump(0)", "_ = c14bump(c14n)", "c14sink(c14bump(1), c14bump(2))"},
 	},
 	{
 		// The import is replaced; whether the old one may go depends on whether
